@@ -1,4 +1,4 @@
-import CffiVerif.Proofs.Call
+import CffiVerif.Proofs.CallSource
 
 /-!
 C13 — all call paths to a C function agree (partial).
@@ -14,7 +14,7 @@ by the correspondence run only (harness/corr_C13.py).
 -/
 namespace CffiVerif.C13
 set_option linter.unusedSimpArgs false
-open CffiVerif.Call
+open CffiVerif.Call CffiVerif.Generated
 
 /-- **Arguments**: for every integer / `_Bool` / `char` type and every Python
 object (every `int` of any magnitude in particular) both paths hand the callee
@@ -309,6 +309,38 @@ theorem tmp_array_zero_filled (datasize itemSize : Nat) (items : List (List UInt
 /-- An empty list still yields one (zero) byte. -/
 theorem empty_list_one_zero_byte (itemSize : Nat) : tmpArrayFfi 1 itemSize [] = [0] := by
   simp [tmpArrayFfi, tmpArray, fillItems]
+
+
+/-! ### tie to the current source (`Generated/IntMacros`, regenerated on every run) -/
+
+/-- The signed range check the model's API path uses **is** the condition of the
+macro `_cffi_to_c_SIGNED_FN` in the working tree (translated to `BitVec 64`). -/
+theorem api_signed_check_is_source (s : Sz) (v : Int) (h : -two63 ≤ v ∧ v < two63) :
+    (v > apiSMax s.bits ∨ v < apiSMin s.bits) ↔ IntMacros.signedOverflow s.bits (BitVec.ofInt 64 v) = true := by
+  have hv := toInt_ofInt_range v h
+  cases s <;>
+    simp only [IntMacros.signedOverflow, BitVec.slt, hv, Sz.bits, Sz.bytes, Nat.reduceMul, Bool.or_eq_true,
+      decide_eq_true_eq, apiSMax, apiSMin] <;>
+    simp <;> omega
+
+/-- Same for `_cffi_to_c_UNSIGNED_FN`. -/
+theorem api_unsigned_check_is_source (s : Sz) (v : Int) (h : 0 ≤ v ∧ v < two64) :
+    (v > apiUMax s.bits) ↔ IntMacros.unsignedOverflow s.bits (BitVec.ofInt 64 v) = true := by
+  have hv := toNat_ofInt_range v h
+  cases s <;>
+    simp only [IntMacros.unsignedOverflow, BitVec.ult, Sz.bits, Sz.bytes, Nat.reduceMul,
+      decide_eq_true_eq, apiUMax] <;>
+    simp <;> omega
+
+/-- `_cffi_to_c_int(o, type)` of `_cffi_include.h` dispatches a type of `n` bytes to
+`_cffi_to_c_u<8n>` / `_cffi_to_c_i<8n>`, as `argApiRaw` does; the macros start
+from the conversions the model starts from. -/
+theorem api_dispatch_is_source (s : Sz) :
+    (IntMacros.dispatch.lookup s.bytes).map (fun r => (r.1.1, r.1.2.1, r.2.1, r.2.2.1))
+      = some (false, s.bits, true, s.bits)
+    ∧ IntMacros.signedConv = ("_my_PyLong_AsLongLong", false)
+    ∧ IntMacros.unsignedConv = ("_my_PyLong_AsUnsignedLongLong", true) := by
+  cases s <;> decide
 
 /-! ### non-vacuity -/
 
